@@ -22,16 +22,16 @@ S = "scale_typegen"
 
 def check(ctx):
     P = ctx.P
-    expect_fn(ctx, "C16.1", "derives/all", "DerivesRegistry::add_derives_for_all", "{Extend::extend(P0.default_derives.derives,P1)}", "global derives: set extend", S)
-    expect_fn(ctx, "C16.1", "attributes/all", "DerivesRegistry::add_attributes_for_all", "{Extend::extend(P0.default_derives.attributes,P1)}", "global attributes: set extend", S)
+    expect_fn(ctx, "C16.1", "derives/all", "DerivesRegistry::add_derives_for_all", "Extend::extend(P0.default_derives.derives,P1)", "global derives: set extend", S)
+    expect_fn(ctx, "C16.1", "attributes/all", "DerivesRegistry::add_attributes_for_all", "Extend::extend(P0.default_derives.attributes,P1)", "global attributes: set extend", S)
     SEL = "Entry::or_default(HashMap::entry(if(P3){P0.recursive_type_derives}else{P0.specific_type_derives},P1))"
-    expect_fn(ctx, "C16.1", "derives/for", "DerivesRegistry::add_derives_for", "{Extend::extend(%s.derives,P2)}" % SEL,
+    expect_fn(ctx, "C16.1", "derives/for", "DerivesRegistry::add_derives_for", "Extend::extend(%s.derives,P2)" % SEL,
               "recursive -> recursive map, else specific map; entry(ty).or_default(); derives extended", S)
-    expect_fn(ctx, "C16.1", "attributes/for", "DerivesRegistry::add_attributes_for", "{Extend::extend(%s.attributes,P2)}" % SEL,
+    expect_fn(ctx, "C16.1", "attributes/for", "DerivesRegistry::add_attributes_for", "Extend::extend(%s.attributes,P2)" % SEL,
               "same selection as add_derives_for; attributes extended (sibling agreement)", S)
     expect_fn(ctx, "C16.1", "derives/extend_from", "Derives::extend_from", "{Extend::extend(P0.derives,P1.derives);Extend::extend(P0.attributes,P1.attributes)}", "union, no crossing", S)
-    expect_fn(ctx, "C16.1", "derives/insert", "Derives::insert_derive", "{HashSet::insert(P0.derives,P1)}", "single derive: set insert", S)
-    expect_fn(ctx, "C16.1", "attributes/insert", "Derives::insert_attribute", "{HashSet::insert(P0.attributes,P1)}", "single attribute: set insert", S)
+    expect_fn(ctx, "C16.1", "derives/insert", "Derives::insert_derive", "HashSet::insert(P0.derives,P1)", "single derive: set insert", S)
+    expect_fn(ctx, "C16.1", "attributes/insert", "Derives::insert_attribute", "HashSet::insert(P0.attributes,P1)", "single attribute: set insert", S)
     from . import c08
     with ctx.only(lambda k: k in ("resolve", "resolve/for-type", "resolve/path-key")):
         c08.check(ctx)
@@ -45,7 +45,7 @@ def check(ctx):
     expect_fn(ctx, "C16.2", "substitutes/insert_if_not_exists", "TypeSubstitutes::insert_if_not_exists",
               "{Entry::or_insert(HashMap::entry(P0.substitutes,%s.0),%s.1);Ok(())}" % (PARSE, PARSE), "insert-if-absent: entry(key).or_insert(rule) never replaces", S)
     PE = "TypeSubstitutes::parse_path_substitution(elem(P1).0,elem(P1).1.0)?"
-    expect_fn(ctx, "C16.2", "substitutes/extend", "TypeSubstitutes::extend", "{for(P1){{HashMap::insert(P0.substitutes,%s.0,%s.1)}};Ok(())}" % (PE, PE),
+    expect_fn(ctx, "C16.2", "substitutes/extend", "TypeSubstitutes::extend", "{for(P1){HashMap::insert(P0.substitutes,%s.0,%s.1)};Ok(())}" % (PE, PE),
               "extend: per element in order, parse then insert (a failing element stops before its own insertion)", S)
     for suf in ("TypeSubstitutes::insert", "TypeSubstitutes::insert_if_not_exists", "TypeSubstitutes::extend"):
         fn = q.fn1(P, suf, S)
